@@ -219,7 +219,17 @@ def replay(ctx, o):
         pts = [c[0] for c in r['calls']]
         # with f == 1 the result is the shell volume element integral: (r2^3-r1^3)/3 * (c2-c1) * (p2-p1)
         want = (vals[1] ** 3 - vals[0] ** 3) / 3 * (vals[3] - vals[2]) * (vals[5] - vals[4])
-        return abs(r['ret'] - want) > 1e-8 * abs(want), 'native spherical Integrate_3D of f=1 over r in [%r,%r], cos in [%r,%r], phi in [%r,%r] = %r, exact %r' % (*vals, r['ret'], want)
+        if abs(r['ret'] - want) > 1e-8 * abs(want): return True, 'native spherical Integrate_3D of f=1 over r in [%r,%r], cos in [%r,%r], phi in [%r,%r] = %r, exact %r' % (*vals, r['ret'], want)
+        # the three Cartesian components as integrands, over an angular box that reaches every quadrant of the azimuth: int r^2 (r sin t cos p, r sin t sin p, r cos t) dr dcos dp in closed form
+        r1, r2, c1, c2 = 1.0, 2.0, -0.5, 0.8; R4 = (r2 ** 4 - r1 ** 4) / 4; S = 0.5 * ((c2 * math.sqrt(1 - c2 * c2) + math.asin(c2)) - (c1 * math.sqrt(1 - c1 * c1) + math.asin(c1))); Cc = (c2 * c2 - c1 * c1) / 2
+        for (p1, p2) in ((0.2, 2.5), (math.pi, 1.7 * math.pi), (-2.0, -0.3), (0.5, 5.9)):
+            exact = [R4 * S * (math.sin(p2) - math.sin(p1)), R4 * S * (math.cos(p1) - math.cos(p2)), R4 * Cc * (p2 - p1)]
+            for comp in range(3):
+                def fc(p, n, comp=comp): return p[comp]
+                rr = nat.call(so, 'verif_c13_int3sph', [r1, r2, c1, c2, p1, p2, ('i32', GL2), ('i32', 12)], fcb=fc, fcb_name='verif_fv_ptr', fcb_sig=sigv)
+                if rr['status'] != 'ok' or abs(rr['ret'] - exact[comp]) > 1e-8 * max(1.0, abs(exact[comp])):
+                    return True, 'native spherical Integrate_3D of the Cartesian component %d over r in [1,2], cos theta in [-0.5,0.8], phi in [%r,%r] = %s, exact %r' % (comp, p1, p2, rr.get('ret', rr['status']), exact[comp])
+        return False, 'native spherical Integrate_3D: f=1 and the three Cartesian components over four azimuth ranges agree with the closed forms'
     if 'lims' not in m: return False, 'no model'
     lims = [q2f(q) for q in m['lims']]; d = m['dim']; meth = m['method']; par = m['n']
     fn = {1: 'verif_c13_int1', 2: 'verif_c13_int2', 3: 'verif_c13_int3'}[d]; sig = ctypes.CFUNCTYPE(ctypes.c_double, *([ctypes.c_double] * d)); pname = {1: 'verif_f_ptr', 2: 'verif_f2_ptr', 3: 'verif_f3_ptr'}[d]
